@@ -96,6 +96,12 @@ def _sym_task(pid, tier, seed, name, opts):
             report["error"] = "solver-disagreement: %s" % e
             r, m = "unknown", None
         p["sample_status"] = r
+        if r == "infeasible":
+            # the path condition is unsatisfiable: a feasibility query during exploration was answered too weakly
+            # (timeout under load); dropping an infeasible path is always sound
+            report.setdefault("infeasible_dropped", 0)
+            report["infeasible_dropped"] += 1
+            continue
         env = None
         if r == "sat":
             p["sample"] = core.model_inputs(m, pr.inputs)
